@@ -25,6 +25,15 @@ CHECKS = {
  "C20": dict(level=MC, engine="graphwalk+tracecheck", technique="TLA+ specs (TmpPool.tla with an exit-by-exception action enabled in every state of the body and child-process creation; FilePool.tla) model-checked by TLC; graph walk against a real directory inside a real with-statement; trace validation by TLC",
              text="TLC exhaustively checks the specifications (paths distinct, listed = created-not-removed, nothing left after flush/exit/exit-by-exception, all handles open inside and closed outside; negative controls that skip the clean-up on the exception path must fail), emits every transition, and the real TmpPool (single- and multi-process, with files created by forked children) and FilePool are driven through every (state, operation) pair: operations run inside a real with-body, exceptions are thrown into that body, and the directory listing / handle.closed are compared after every step.",
              note="private temporary directory; the body exception is an ordinary Exception; multi-process walk bounded to 2-3 files because every replay starts manager processes", ref="4 C20"),
+ "C11": dict(level=MC, engine="graphwalk+tracecheck", technique="TLA+ spec (LineFile.tla + PySeq.tla: Python list/slice semantics, per-iterator positions) model-checked by TLC; graph walk of every variant over a content config and an interleaving config; trace validation of 200-line files by TLC",
+             text="TLC exhaustively checks the line-file specification (iterators keep their own position; negative control with a shared cursor must fail), emits every transition for (a) every file of up to 2-3 lines over 7 line kinds x terminated or not x every read and (b) distinct-line files x index sources (built / list / index file; identity, reversed, subset) x gets, a slice grid and two interleaved iterators, and all eight variants (buffered, memory-mapped, mutable, record) are driven through every (state, operation) pair - they must all produce the specification's observations, hence agree; 200-line files with 300 interleaved reads are validated by TLC.",
+             note="UTF-8 files and locale; empty file only for buffered variants; line kinds stand for the classes of content that stress the mechanisms (terminators, multi-byte boundaries, buffer size); observation of content uses a second object so the cursor of the object under test is never moved", ref="4 C11"),
+ "C12": dict(level=MC, engine="graphwalk+tracecheck", technique="TLA+ spec (MutableLineFile.tla: Python list of lines, dirty flag, save) model-checked by TLC; graph walk of the four mutable variants; trace validation by TLC",
+             text="TLC exhaustively checks the mutable-file specification (dirty rule, save writes the content, out-of-range changes nothing; negative control with a stale dirty flag must fail) for files starting with 0-2 lines and every edit/read/save history up to length 3-4, emits every transition, and the four mutable variants are driven through every (state, operation) pair; save output is read back for three line endings and reopened with the buffered and memory-mapped reader, and the source bytes are compared after every step; 120-operation histories are validated by TLC.",
+             note="break-free line content; dirty specified for plain variants only; small-scope exhaustive, sampled beyond", ref="4 C12"),
+ "C13": dict(level=MC, engine="graphwalk+tracecheck+cases", technique="record files: MutableLineFile.tla with symbols = JSON/CSV/TSV records, graph walk + trace validation by TLC; codec: TLC enumerates the field domain (RecordCodec.tla) and judges every recorded (r, line, loaded) with the TLA+ law",
+             text="Record files: the mutable-file specification is walked with JSON, CSV and TSV record classes (fields with delimiters, quotes, blanks, nested values) for the buffered and memory-mapped mutable variants, including save and reopen. Codec: TLC enumerates strings up to length 2-3 over an alphabet of delimiters, quotes, backslash, blanks, ASCII / non-ASCII letters (JSON: also line breaks) plus padded patterns with integer/float tokens; the real save/load run on every case in one process and TLC judges round-trip and single-line. The codec half is exhaustive enumeration against a TLA+-stated law (exploration in nature); the file half is model checking.",
+             note="codec laws are about pure functions (weak fit for a state machine, see DESIGN 7); equality is Python ==; numbers are tokens into a table because TLC integers are 32-bit", ref="4 C13"),
 }
 PENDING = "check not built yet in this session (planned, see DESIGN.md section 4)"
 
